@@ -134,7 +134,7 @@ Section Layers.
     end.
   Proof.
     intros HP Hr Hk. unfold voprf_finalize. unfold O.
-    rewrite (g_mul_comm CS GL P r k).
+    rewrite (g_mul_comm CS GL P r k HP Hr Hk).
     rewrite (g_mul_inv CS GL (o_mul (oprf CS) P k) r) by (try apply (g_mul_valid CS GL); assumption).
     reflexivity.
   Qed.
@@ -163,10 +163,10 @@ Section Layers.
     apply bind_Ok in H as ([[[sk km2] km3] hs] & Hkeys & H).
     injection H as <- <- <- <-.
     unfold keypair_generate_random in Hkp.
-    destruct (length tape <? k_Nsk (ke CS)); [discriminate|].
+    destruct (Nat.ltb_spec (length tape) (k_Nsk (ke CS))) as [|Hlt]; [discriminate|].
     destruct (k_derive (ke CS) (hash CS) (o_id (oprf CS)) (firstn (k_Nsk (ke CS)) tape)) as [se|] eqn:Hse; [|discriminate].
     injection Hkp as <- <-. cbn [kp_pk kp_sk] in *.
-    pose proof (g_derive_valid CS GL _ _ _ _ Hse) as Hsev.
+    pose proof (g_derive_valid CS GL _ _ _ _ (length_firstn_le _ _ Hlt) Hse) as Hsev.
     rewrite (g_dh_sym CS GL ce se Hce Hsev) in Hkeys.
     rewrite (g_dh_sym CS GL ce ss Hce Hss) in Hkeys.
     rewrite (g_dh_sym CS GL cs se Hcs Hsev) in Hkeys.
